@@ -416,7 +416,7 @@ theorem leaveRoom_frame (a : Acc) (s : Nat) (x : Sess) (r0 : String) (rm0 : Room
     (hrm : a.h.rooms x.backend r0 = some rm0) (hs : s ∈ rm0.members)
     (hn : (a.h.roomL x.backend r0).Nodup) (hl : ∀ l ∈ a.h.roomL x.backend r0, Listens a.h l) :
     let a' := (leaveRoom a s).1
-    (∃ y, a'.h.sess s = some y ∧ y.kind = .client ∧ y.room = none ∧ y.backend = x.backend) ∧
+    (∃ y, a'.h.sess s = some y ∧ y.kind = .client ∧ y.room = none ∧ y.backend = x.backend ∧ y.children = x.children) ∧
     (∀ k, k ≠ s → k ∉ a.h.roomL x.backend r0 → a'.h.sess k = a.h.sess k) ∧
     (∀ b' r', ¬ (b' = x.backend ∧ r' = r0) → a'.h.rooms b' r' = a.h.rooms b' r' ∧ a'.h.roomL b' r' = a.h.roomL b' r') ∧
     a'.h.sessL = a.h.sessL := by
@@ -440,7 +440,7 @@ theorem leaveRoom_frame (a : Acc) (s : Nat) (x : Sess) (r0 : String) (rm0 : Room
   have key : ∀ (h1 : Hub), h1.sess = h3.sess → h1.roomL = h3.roomL → h1.sessL = h3.sessL →
       (∀ b' r', ¬ (b' = x.backend ∧ r' = r0) → h1.rooms b' r' = a.h.rooms b' r') →
       let p := pubRoom { a with h := h1 } x.backend r0 (.msg (.leave [s]))
-      (∃ y, p.h.sess s = some y ∧ y.kind = .client ∧ y.room = none ∧ y.backend = x.backend) ∧
+      (∃ y, p.h.sess s = some y ∧ y.kind = .client ∧ y.room = none ∧ y.backend = x.backend ∧ y.children = x.children) ∧
       (∀ k, k ≠ s → k ∉ a.h.roomL x.backend r0 → p.h.sess k = a.h.sess k) ∧
       (∀ b' r', ¬ (b' = x.backend ∧ r' = r0) → p.h.rooms b' r' = a.h.rooms b' r' ∧ p.h.roomL b' r' = a.h.roomL b' r') ∧
       p.h.sessL = a.h.sessL := by
@@ -455,7 +455,7 @@ theorem leaveRoom_frame (a : Acc) (s : Nat) (x : Sess) (r0 : String) (rm0 : Room
     have hsn : s ∉ h1.roomL x.backend r0 := by
       rw [e2, hroomL0]; intro hm; exact (mem_removeL.mp hm).2 rfl
     refine ⟨⟨{ x with kind := .client, room := none, roomSess := "", seenJoin := [] },
-      (q2 s hsn).trans (by rw [e1]; exact hsessS), rfl, rfl, rfl⟩, ?_, ?_, ?_⟩
+      (q2 s hsn).trans (by rw [e1]; exact hsessS), rfl, rfl, rfl, rfl⟩, ?_, ?_, ?_⟩
     · intro k hks hkn
       have : k ∉ h1.roomL x.backend r0 := by
         rw [e2, hroomL0]; intro hm; exact hkn (mem_removeL.mp hm).1
@@ -486,5 +486,18 @@ theorem doJoin_after_leave (a : Acc) (s : Nat) (r rsid : String) (perms : Option
     simp only [leaveRoom, hy, hyr]
   unfold doJoin
   rw [h2]
+
+end SigModel.Hub
+
+namespace SigModel.Hub
+
+/-- Dropping a closed session from the tables touches no other session's record. -/
+theorem dropClient_sess (h : Hub) (s : Nat) (y : Sess) (k : Nat) (hk : k ≠ s) : (dropClient h s y).sess k = h.sess k := by
+  unfold dropClient dropFromTables
+  cases y.conn <;> simp only [] <;> split <;> simp [setUserL, hk]
+
+theorem dropClient_sess_self (h : Hub) (s : Nat) (y : Sess) : (dropClient h s y).sess s = none := by
+  unfold dropClient dropFromTables
+  cases y.conn <;> simp only [] <;> split <;> simp [setUserL]
 
 end SigModel.Hub
